@@ -255,9 +255,9 @@ Proof.
     cbn [flat_map]. rewrite depth_after_app, H1. apply IHch, H2. }
   rewrite tree_events_eq. cbn [an_name an_children an_value].
   destruct nm as [[|n0 nm']|].
-  - destruct (truthy_l v); [apply G|reflexivity].
+  - apply G.
   - destruct (self_closed _); [reflexivity|]. cbn [depth_after]. rewrite depth_after_app, G. cbn [depth_after]. lia.
-  - destruct (truthy_l v); [apply G|reflexivity].
+  - apply G.
 Qed.
 Lemma depth_forest c l d : depth_after d (flat_map (tree_events c) l) = d.
 Proof. induction l as [|x l IH]; [reflexivity|]. cbn [flat_map]. rewrite depth_after_app, depth_tree. exact IH. Qed.
@@ -280,14 +280,14 @@ Proof.
     apply nonneg_app; [assumption|apply IHch; assumption]. }
   rewrite tree_events_eq. cbn [an_name an_children an_value].
   destruct nm as [[|n0 nm']|].
-  - destruct (truthy_l v); [exact G|apply nonneg_nil].
+  - exact G.
   - destruct (self_closed _).
     + intros d [|[|t]]; cbn; lia.
     + intros d [|t]; [cbn; lia|]. cbn [firstn depth_after]. rewrite firstn_app, depth_after_app.
       pose proof (G (d + 1) t) as G1.
       destruct (t - length (flat_map (tree_events c) ch))%nat as [|u]; [cbn [firstn depth_after]; lia|].
       cbn [firstn depth_after]. destruct u; cbn [firstn depth_after]; lia.
-  - destruct (truthy_l v); [exact G|apply nonneg_nil].
+  - exact G.
 Qed.
 Lemma nonneg_forest c l : nonneg (flat_map (tree_events c) l).
 Proof. induction l as [|x l IH]; [apply nonneg_nil|]. cbn [flat_map]. apply nonneg_app; [apply nonneg_tree|exact IH]. Qed.
@@ -1175,20 +1175,20 @@ Lemma LI_el_unnamed node next st m p E0 E1 :
   E = E0 ++ tree_events c node ++ E1 -> m = length E0 ->
   LI st m p -> PO m p -> lvl st = D m ->
   keeps_lvl next -> (an_children node = [] -> forall s, next s = s) ->
-  (truthy_l (an_value node) = true -> next_ok node next m) ->
+  next_ok node next m ->
   exists p', LI (el_unnamed c node next st) (m + length (tree_events c node)) p' /\
              PO (m + length (tree_events c node)) p' /\ (ends_text c node = true -> p' = None).
 Proof.
   intros En Hw Hv HE Hm H Hp HL Hk Hnil Hnext.
   assert (Hgi : get_indent c (Some node) = 0).
   { rewrite get_indent_wf; [cbn [named_opt]; rewrite En; reflexivity|exact Hw]. }
-  assert (Hev : tree_events c node = if truthy_l (an_value node) then flat_map (tree_events c) (an_children node) else []).
+  assert (Hev : tree_events c node = flat_map (tree_events c) (an_children node)).
   { rewrite tree_events_eq. destruct (an_name node) as [[|x nm]|]; try reflexivity. discriminate. }
   rewrite Hev in HE |- *. rewrite ends_text_eq, En. unfold el_unnamed.
+  set (kids := flat_map (tree_events c) (an_children node)) in *.
   destruct (el_snippet c node next st) as [st'|] eqn:Es.
   - destruct (el_snippet_some_inv node next st st' Es) as [v0 [value [ix [Ev [Ef Hne]]]]].
-    rewrite Ev in HE, Hnext |- *. cbn [truthy_l] in *. specialize (Hnext eq_refl).
-    set (kids := flat_map (tree_events c) (an_children node)) in *.
+    rewrite Ev. cbn [truthy_l].
     assert (HD2 : D (m + length kids) = D m) by (rewrite Hm; apply (Dp_forest E0 _ E1 HE)).
     destruct (LI_el_snippet node next st st' m p Es Hk Hnext H Hp) as [ix' [pw [_ [_ [HQ [_ Hmore]]]]]].
     { rewrite Hgi. lia. }
@@ -1199,10 +1199,26 @@ Proof.
     destruct (Hmore (Qn_last_PO node l0 xl _ pw En Hw HQ)) as [p' [H3 [Hp3 _]]].
     exists p'. split; [exact H3|]. split; [exact Hp3|].
     destruct (an_children node); [contradiction|]. cbn [oval]. unfold no_field. rewrite Ef, andb_false_r. discriminate.
-  - destruct (an_value node) as [[|v0 value]|] eqn:Ev; cbn [truthy_l oval] in *.
-    + exists p. rewrite Nat.add_0_r. repeat split; try assumption. destruct (an_children node); discriminate.
-    + specialize (Hnext eq_refl). set (kids := flat_map (tree_events c) (an_children node)) in *.
-      destruct (LI_tokens st m p (v0 :: value) H Hp Hv (or_introl HL)) as [p1 [H1 [Hp1 [_ [Hv1 _]]]]].
+  - (* the text (when there is one), then the children -- also when the text is empty (repaired) *)
+    assert (Hempty : truthy_l (an_value node) = false -> oval (an_value node) = [] ->
+              exists p', LI (next st) (m + length kids) p' /\ PO (m + length kids) p' /\
+                (match an_children node with
+                 | [] => ends_visible (oval (an_value node))
+                 | _ :: _ => truthy_l (an_value node) && no_field (oval (an_value node)) && negb (last_formatted c node)
+                             && match rev (an_children node) with x :: _ => ends_text c x | [] => false end
+                 end = true -> p' = None)).
+    { intros Et Eo. rewrite Et, Eo. destruct (no_children node) eqn:Enc.
+      * assert (Ech : an_children node = []) by (unfold no_children in Enc; destruct (an_children node); [reflexivity|discriminate]).
+        rewrite (Hnil Ech). assert (Ek : length kids = O) by (unfold kids; rewrite Ech; reflexivity).
+        rewrite Ek, Nat.add_0_r. exists p. rewrite Ech. repeat split; try assumption. discriminate.
+      * assert (Hne : an_children node <> []) by (intros e; unfold no_children in Enc; rewrite e in Enc; discriminate).
+        destruct (Hnext st p H Hp) as [pw [Hww [_ HQ]]]; [rewrite Hgi; lia|].
+        destruct (exists_last Hne) as [l0 [xl El]]. specialize (HQ l0 xl El).
+        exists pw. split; [exact Hww|]. split; [apply (Qn_last_PO node l0 xl _ pw En Hw HQ)|].
+        destruct (an_children node); [contradiction|]. cbn [andb]. discriminate. }
+    destruct (an_value node) as [[|v0 value]|] eqn:Ev; cbn [truthy_l oval] in *.
+    + apply Hempty; reflexivity.
+    + destruct (LI_tokens st m p (v0 :: value) H Hp Hv (or_introl HL)) as [p1 [H1 [Hp1 [_ [Hv1 _]]]]].
       destruct (no_children node) eqn:Enc.
       * assert (Ech : an_children node = []) by (unfold no_children in Enc; destruct (an_children node); [reflexivity|discriminate]).
         rewrite (Hnil Ech). assert (Ek : length kids = O) by (unfold kids; rewrite Ech; reflexivity).
@@ -1218,7 +1234,7 @@ Proof.
         intros Het. apply andb_true_iff in Het. destruct Het as [Het Het2].
         apply andb_true_iff in Het. destruct Het as [_ Het1]. apply negb_true_iff in Het1. rewrite Het1 in HQ.
         apply (proj2 HQ Het2).
-    + exists p. rewrite Nat.add_0_r. repeat split; try assumption. destruct (an_children node); discriminate.
+    + apply Hempty; reflexivity.
 Qed.
 
 (* ---------------------------------------------------------------- element(): own line break, body, closing line break *)
@@ -1275,8 +1291,8 @@ Proof.
   { unfold el_body. destruct (an_name node) as [[|x nm]|] eqn:En.
     - apply (LI_el_unnamed node next st1 m p1 E0 E1); try assumption; try reflexivity.
       + unfold truthy_s. rewrite En. reflexivity.
-      + intros Ht. apply Hnext. exists E0, E1. split; [|reflexivity].
-        rewrite HE, tree_events_eq, En, Ht. reflexivity.
+      + apply Hnext. exists E0, E1. split; [|reflexivity].
+        rewrite HE, tree_events_eq, En. reflexivity.
     - destruct (Hnm eq_refl) as [Hlast Hsn].
       rewrite ends_text_eq, En. cbn [truthy_s].
       apply (LI_el_named x nm node next st1 m p1 E0 E1); try assumption; try reflexivity.
@@ -1299,8 +1315,8 @@ Proof.
           rewrite Efc. split; [intros s0 []|]. rewrite Em. reflexivity.
     - apply (LI_el_unnamed node next st1 m p1 E0 E1); try assumption; try reflexivity.
       + unfold truthy_s. rewrite En. reflexivity.
-      + intros Ht. apply Hnext. exists E0, E1. split; [|reflexivity].
-        rewrite HE, tree_events_eq, En, Ht. reflexivity. }
+      + apply Hnext. exists E0, E1. split; [|reflexivity].
+        rewrite HE, tree_events_eq, En. reflexivity. }
   destruct Hb as [p2 [H2 [Hp2 He2]]].
   assert (Hl2 : lvl (el_body c node next st1) = D m') by (rewrite lvl_el_body by exact Hk; rewrite HDm; exact Hl1).
   unfold Qn, tailb, el_tail.
